@@ -259,6 +259,12 @@ def worker(arg):
                     for e in s["edits"]:
                         st["edit_" + e[0]] += 1
                     edit_hashes.add(SG.edits_hash(s))
+                    for k, v in s.get("sec_stats", {}).items():
+                        st["secedit_" + k] += v
+                    if s.get("sec_mode"):
+                        st["secedit_section_centred_edit_scripts"] += 1
+                    if len(s["secs"]) >= 2:
+                        st["secedit_edit_scripts_with_3_or_4_sections"] += 1
                 elif r["edit"] == 2:
                     st["edit_scripts_skipped_call_time_error"] += 1
                 if r["log"] == 1:
@@ -414,7 +420,8 @@ def run(tier, args):
         "ambiguous_multi_error_skipped": st["ambiguous_multi_error_skipped"],
         "edit_scripts_judged": st["edit_scripts_judged"],
         "edit_scripts_skipped_call_time_error": st["edit_scripts_skipped_call_time_error"],
-        "edit_ops_by_kind": {k[5:]: v for k, v in sorted(st.items()) if k.startswith("edit_") and k not in ("edit_scripts_judged", "edit_scripts_skipped_call_time_error", "edit_ops")},
+        "edit_ops_by_kind": {k[5:]: v for k, v in sorted(st.items()) if k.startswith("edit_") and not k.startswith("edit_scripts") and k not in ("edit_scripts_judged", "edit_scripts_skipped_call_time_error", "edit_ops")},
+        "section_edits": {k[8:]: v for k, v in sorted(st.items()) if k.startswith("secedit_")},
         "logger_output": {"equal": st["logger_output_equal"], "differs_in_data_directives_only": st["logger_output_differs_in_data_directives_only"],
                           "differs_in_instruction_label_or_comment_lines": st["logger_output_differs"]},
         "script_order_vs_node_order": {"raw_state_equal": st["script_order_equals_node_order_raw"],
